@@ -38,3 +38,57 @@ PROPS["C18"] = {
                   "counterexamples are replayed natively on the real instruction.",
     "design_ref": "DESIGN.md section 4 C18",
 }
+
+PROPS["C19"] = {
+    "title": "Square, file, rank, piece and move text forms round-trip",
+    "groups": [{"crate": "core", "module": "c19", "timeout_q": 300}],
+    "functions": ["Pos::{from_u8,const_from_u8,new,file,rank,to_u8,shift_*,flip_rank,all,from_ascii_bytes,from_str,Display}",
+                  "File::{from_u8,shift_*,dist_to,side,lower_letter,upper_letter,all,iter,from_ascii_byte(s),from_str,Display}",
+                  "Rank::{from_u8,shift_*,dist_to,flip,all,iter,from_ascii_byte(s),from_str,Display}",
+                  "Piece/PromotionPiece::{from_u8,to_piece,from_ascii_byte(s),from_str}", "Color/Side::{from_u8,not,all}",
+                  "ChessMove::{from_ascii_bytes,from_str,Display}", "AllColorIter/AllSideIter/AllPieceIter/AllFileIter/AllRankIter/AllPosIter/FileIter/RankIter"],
+    "bounds": "all values of every finite type (symbolic); parsers: every byte string of every length 0..=8 (symbolic bytes and length); "
+              "FromStr: every ASCII string of length <= 5; enum iterators: every sequence of 4 operations from {next,next_back,nth(n),nth_back(n),size_hint} with symbolic n",
+    "outside": "byte strings longer than 8 (rejected by fixed-arity slice patterns); non-ASCII &str for FromStr (delegates to the byte parser); iterator op sequences longer than 4 (the state space of a Range<u8> iterator over <= 8 items is closed under the ops, 4 ops reach every (start,end) pair for n<=2 and every shape class for n<=8)",
+    "level_text": "All conversions, neighbour steps, parsers, Display->parse round trips and enum iterators are executed symbolically; the solver "
+                  "covers every value / every byte string up to length 8 (not just the 65536 two-byte strings and the move alphabet).",
+    "level_note": "Display goes through the real core::fmt into a fixed 16-byte sink. Slice-iterator model = core::slice::Iter over [0..n).",
+    "design_ref": "DESIGN.md section 4 C19",
+}
+
+PROPS["C14"] = {
+    "title": "Scores form a total order matching game-theoretic preference",
+    "groups": [{"crate": "engine", "module": "c14", "timeout_q": 300}],
+    "functions": ["chess_engine::Score::{cmp,partial_cmp,eq,ne,lt,le,gt,ge,max,min,kind}"],
+    "bounds": "none beyond the types: three symbolic scores over all 5 variants, every u16 mate distance and every i32 numeric value",
+    "outside": "Debug rendering of scores",
+    "level_text": "The real Ord/PartialOrd/PartialEq code of Score is executed on three fully symbolic scores and compared with a "
+                  "lexicographic reference rank; order axioms (duality, transitivity, totality), the preference chain and agreement of "
+                  "==,<,<=,>,>=,max,min with cmp are decided for all values at once (complete in the domain, no sampling).",
+    "level_note": "The bound is the type itself. Trusted: the 12-line reference rank in the harness.",
+    "design_ref": "DESIGN.md section 4 C14",
+}
+PROPS["C16"] = {
+    "title": "Stable-ABI move and score encodings are lossless",
+    "groups": [{"crate": "engine", "module": "c16", "timeout_q": 300}],
+    "functions": ["chess_api::StableChessMove <-> ChessMove (From both ways)", "chess_api::EvaluatedMove::{new,chess_move,score} (StableOptionalChessMove, StableScore match tables)"],
+    "bounds": "none beyond the types: all 64x64x5 moves, 'no move', every score (all u16 / i32 payloads) - symbolic",
+    "outside": "the dlopen / abi_stable trait-object boundary itself (FFI); layout compatibility is abi_stable's derive",
+    "level_text": "All five match tables of the ABI mirror types are executed on symbolic moves/scores; the solver shows decode(encode(x)) == x "
+                  "for every value (the quantifier text samples numeric scores; here every i32 is covered).",
+    "level_note": "abi_stable compiles under Kani; the conversions are ordinary Rust. Complete in the domain.",
+    "design_ref": "DESIGN.md section 4 C16",
+}
+
+PROPS["C08"] = {
+    "title": "Slider attack lookup equals ray casting for every square and occupancy",
+    "groups": [{"crate": "core", "module": "c08", "timeout_q": 300, "timeout_t": 3000}],
+    "functions": ["chess_lookup::rook_moves", "chess_lookup::bishop_moves", "rook_moves::{MOVES_MAGIC,SOLUTIONS}", "bishop_moves::{MOVES_MAGIC,SOLUTIONS}"],
+    "bounds": "none: 128 queries (piece x square), each over all 2^64 occupancies (symbolic u64); ray walk unwound 7 steps (board edge)",
+    "outside": "agreement with a re-run of the randomised, multi-threaded magic search of chess-lookup-generator (not encodable; the checked-in tables are compared with the definition instead, which is the stronger statement)",
+    "level_text": "For each of the 64 squares and both sliders the real lookup (mask, magic multiply, shift, offset, table read over the real 2x262144-word tables) "
+                  "is compared by the SAT solver with square-by-square ray casting for ALL 2^64 occupancies - independence from off-ray squares is decided, not sampled - "
+                  "and the index is shown in range (bounds check + the crate's debug_assert). Complete in its domain.",
+    "level_note": "Square concrete per query (constant multiplier); thorough tier adds two single queries with a symbolic square. Kani default checks on.",
+    "design_ref": "DESIGN.md section 4 L0/C08",
+}
